@@ -2607,6 +2607,8 @@ int x509_uri_as_distribution_point_name_from_der(const char **uri, size_t *urile
 	const uint8_t *d;
 	size_t dlen;
 
+	*uri = NULL;
+	*urilen = 0;
 	if ((ret = x509_distribution_point_name_from_der(&choice, &d, &dlen, in, inlen)) != 1) {
 		if (ret < 0) error_print();
 		return ret;
@@ -2667,6 +2669,8 @@ int x509_uri_as_explicit_distribution_point_name_from_der(int index,
 	const uint8_t *a;
 	size_t alen;
 
+	*uri = NULL;
+	*urilen = 0;
 	if ((ret = asn1_explicit_from_der(index, &a, &alen, in, inlen)) != 1) {
 		if (ret < 0) error_print();
 		return ret;
